@@ -1,2 +1,4 @@
+pub mod gz;
 pub mod lp;
+pub mod mps;
 pub mod msg;
